@@ -15,6 +15,26 @@ type Options struct {
 	formatOptions      map[string]interface{}
 }
 
+// clone returns a copy of the options that shares no mutable state with o.
+func (o *Options) clone() *Options {
+	c := &Options{
+		Format:        o.Format,
+		formatOptions: map[string]interface{}{},
+	}
+	if o.UnserializeOptions != nil {
+		uo := *o.UnserializeOptions
+		c.UnserializeOptions = &uo
+	}
+	if o.RetrieveOptions != nil {
+		ro := *o.RetrieveOptions
+		c.RetrieveOptions = &ro
+	}
+	for k, v := range o.formatOptions {
+		c.formatOptions[k] = v
+	}
+	return c
+}
+
 // argToOptsKeyVal returns a key value to access the options dictionary by using
 // key as a string or its type if its a serializer driver.
 func argToOptsKeyVal(key interface{}) string {
